@@ -23,6 +23,13 @@ PLAN_LIMIT_S = 120
 ADAPTERS = ["ddpg", "td3", "td3_lap", "sac", "dqn", "nature_dqn", "ddqn", "ddqn_per", "td7", "mrq", "pets", "reinforce", "actor_critic", "a2c", "ppo", "cmaes"]
 
 
+def _T(rng, tier, name, short):
+    """Run length: thorough tier adds a share of long runs (deeper bound) for the cheaper routines."""
+    if tier == "thorough" and name not in ("pets", "mrq", "td7", "ppo", "cmaes") and rng.random() < 0.15:
+        return rng.choice([80, 150])
+    return rng.choice(short)
+
+
 def make_plan(rng, tier, index):
     if index % 3 == 2:
         from rlsim import schedsim
@@ -32,7 +39,7 @@ def make_plan(rng, tier, index):
     index = index - index // 3 - (1 if index % 3 == 2 else 0)
     name = ADAPTERS[index % len(ADAPTERS)]
     ad = trainsim.ADAPTERS[name]
-    plan = trainplan.base_plan(rng, PROPERTY, CLAUSES, name, T=rng.choice([10, 16, 24, 36]) if name != "pets" else rng.choice([8, 12]))
+    plan = trainplan.base_plan(rng, PROPERTY, CLAUSES, name, T=_T(rng, tier, name, [10, 16, 24, 36]) if name != "pets" else rng.choice([8, 12]))
     plan["monitor"] = True
     T = plan["chain"][0]["total_timesteps"]
     mode = rng.choice(["budget", "episodes", "resume", "start_mid", "zero", "reuse_buffer"])
